@@ -72,6 +72,26 @@ Proof.
     apply N.eqb_eq in A, B, C; auto.
 Qed.
 
+(* the test in add(): ( queue_[b] & (bits << off) ) == 0  looks at the field's bits only *)
+Definition sweep_test_ok : bool :=
+  forallb (fun b => forallb (fun p => forallb (fun v =>
+     Bool.eqb (N.land b (N.shiftl v (sh p)) =? 0) (N.land (bget b p) v =? 0))
+     (Nrange 4)) (seq 0 4)) (Nrange 256).
+Lemma sweep_test_ok_true : sweep_test_ok = true.
+Proof. vm_compute. reflexivity. Qed.
+Lemma sweep_test b p v : b < 256 -> (p < 4)%nat -> v < 4 ->
+  (N.land b (N.shiftl v (sh p)) =? 0) = (N.land (bget b p) v =? 0).
+Proof.
+  intros Hb Hp Hv. pose proof sweep_test_ok_true as S. unfold sweep_test_ok in S.
+  rewrite forallb_forall in S. specialize (S b (In_Nrange 256 b Hb)).
+  rewrite forallb_forall in S. specialize (S p). rewrite in_seq in S. specialize (S ltac:(lia)).
+  rewrite forallb_forall in S. specialize (S v (In_Nrange 4 v Hv)).
+  apply Bool.eqb_prop in S. exact S.
+Qed.
+
+Lemma N4_cases v : v < 4 -> v = 0 \/ v = 1 \/ v = 2 \/ v = 3.
+Proof. lia. Qed.
+
 (* byte_set ignores the upper bits of the new value (new_flags & 0x03) *)
 Lemma byte_set_land b p v : byte_set b p v = byte_set b p (N.land v 3).
 Proof.
